@@ -35,7 +35,7 @@ KNOWN_TOKENS = {
     # kind "mismatch": t = the oracle tolerance under which the mismatch disappears (see compare())
     "depth-cascade-select-ignores-read-enable": lambda kv, kind, t: kind == "mismatch" and "en_stall" in t,
     "depth-cascade-aliases-out-of-range-write": lambda kv, kind, t: kind == "mismatch" and "oor_alias" in t,
-    # write enable = pin AND (condition on read data), write data = pin, read latency >= 2
+    # write enable = pin AND (condition on read data), write data = pin, read latency >= 1
     "pin-and-readcond-enable-write-one-cycle-early": lambda kv, kind, t: kind == "mismatch" and "pin_and_cond" in t,
 }
 
@@ -208,7 +208,7 @@ def gen_datadep(rng, n, tag, lats):
             ports = f"R0,W{rng.choice('01')}:p:{cond}"               # plain data, enable from read data
         else:
             ports = f"R0,W0:r0+:{cond},R1"
-        if ":p:a" in ports and lat >= 2:
+        if ":p:a" in ports and lat >= 1:
             ports = ports.replace(":p:a", ":p:o")                    # recorded finding pin-and-readcond-enable-write-one-cycle-early (corpus case)
         typ = "D" if lat == 0 or rng.random() < 0.6 else "M"
         dev = "none" if rng.random() < 0.75 else rng.choice(INTEL + XILINX)
@@ -493,7 +493,7 @@ def oracle(kv, hdr, lines, stats, tolerate=()):
                                 sub = (sub - 1) & a
                 writes.append((a, data))
         if f["tag"] == "p":
-            if any((p["kind"] == "A" or p["cmode"] in "or") and p["src"] is None for p in ports):
+            if any(p["kind"] == "A" or p["cmode"] in "or" for p in ports):
                 mem[0] = None        # a port writing during reset: reset logic may have taken the port over
             prev_written = set()
             continue
@@ -627,7 +627,7 @@ def compare(agg, log, model, known_tokens, expect=None):
                             agg.known.append((t, cs["line"], f"cycle {t0} port {k0} expected {e0} observed {o0}"))
                         excused = True
                     break
-        if bad and pp and not excused and has_pin_and_cond(kv) and int(cs["hdr"]["L"]) >= 2:
+        if bad and pp and not excused and has_pin_and_cond(kv) and int(cs["hdr"]["L"]) >= 1:
             tok = "pin-and-readcond-enable-write-one-cycle-early"
             if tok in known_tokens:
                 t0, k0, e0, o0 = bad[0]
